@@ -17,6 +17,8 @@ import time
 
 ROOT = os.path.dirname(os.path.dirname(os.path.abspath(__file__)))
 # evidence of a run against a worktree (VERIF_REPO, used by bin/seedtest) never overwrites the evidence of /repo
+DEFAULT_BUDGET_S = {"thorough": 720}
+MAX_QUERY_S = {"thorough": 1000}
 EVID = os.path.join(ROOT, "evidence", "_worktree") if os.environ.get("VERIF_REPO") else os.path.join(ROOT, "evidence")
 PY = os.path.join(ROOT, ".venv", "bin", "python")
 MAX_BLOCK_ROUNDS = 12
@@ -128,6 +130,11 @@ def run_property(prop, tier, seed=0, only=None, jobs=None, verbose=True):
         queries = mod.queries(tier)
         if only:
             queries = [q for q in queries if any(o in q["id"] for o in only)]
+        cap = float(os.environ.get("VERIF_MAX_QUERY_S") or MAX_QUERY_S.get(tier) or 0)
+        if cap:
+            for q in queries:
+                if float(q.get("timeout", 60)) > cap:
+                    q["timeout"] = cap  # a query that needs longer ends as inconclusive (stated in the evidence), never as a pass
         for q in queries:
             q.setdefault("module", mod_name)
             q.setdefault("blocks", [])
@@ -221,7 +228,21 @@ def run_property(prop, tier, seed=0, only=None, jobs=None, verbose=True):
             elif res["state"] == "ERROR":
                 harness_errors.append("%s twin: %s" % (job.q["id"], res.get("message", "")[-500:]))
 
+        # wall budget of the tier (thorough only by default): once it is used up, queries that have not been started are
+        # not run and reported as inconclusive ("not run: wall budget"); started ones finish (each bounded by its timeout)
+        budget = os.environ.get("VERIF_BUDGET_S") or (getattr(mod, "BUDGET_S", {}) or {}).get(tier) or (DEFAULT_BUDGET_S.get(tier))
+        budget = float(budget) if budget else None
+        skipped_budget = 0
         while pending or running:
+            if budget and pending and time.time() - t_start > budget:
+                keep = []
+                for j in pending:
+                    if j.twin or j.rounds > 0:
+                        keep.append(j)
+                    else:
+                        records[j.q["id"]]["note"] = "not run: wall budget of the %s tier (%ds) exhausted" % (tier, budget)
+                        skipped_budget += 1
+                pending = keep
             while pending and len(running) < nworkers:
                 j = pending.pop(0)
                 _spawn(j, scratch, env)
@@ -284,7 +305,7 @@ def run_property(prop, tier, seed=0, only=None, jobs=None, verbose=True):
                 "functions_encoded": functions_encoded,
                 "bounds": getattr(mod, "BOUNDS", {}).get(tier, getattr(mod, "BOUNDS", {})),
                 "outside": getattr(mod, "OUTSIDE", []),
-                "queries": {"total": total, "confirmed": confirmed, "confirmed_after_blocking_known_findings": sum(1 for r in recs if r["final"] == "CONFIRMED" and r["known"]), "refuted_known": known_hits, "refuted_new": viol, "inconclusive": inconclusive, "spurious_model_level": spurious, "vacuous_or_error": len(harness_errors)},
+                "queries": {"total": total, "confirmed": confirmed, "confirmed_after_blocking_known_findings": sum(1 for r in recs if r["final"] == "CONFIRMED" and r["known"]), "refuted_known": known_hits, "refuted_new": viol, "inconclusive": inconclusive, "spurious_model_level": spurious, "vacuous_or_error": len(harness_errors), "not_run_wall_budget": skipped_budget, "wall_budget_s": budget},
                 "obligations": total,
                 "discharged": confirmed,
                 "evaluations": max(int(paths), 1),
